@@ -154,7 +154,12 @@ func (x *Exec) callFunction(st *State, fr *Frame, at ssa.Instruction, name strin
 	if c, ok := x.contractOf(name); ok && fn != x.Top {
 		_, forceInline := c.Flags["inline"]
 		if !forceInline {
+			if os.Getenv("GVC_TRACE_CLO") != "" {
+				fmt.Fprintf(os.Stderr, "contract call %s bindings=%d freevars=%d\n", name, len(bindings), len(fn.FreeVars))
+			}
+			x.siteBindings = bindings
 			v := x.applyContract(st, fr, at, name, c, fn.Signature, fn, args)
+			x.siteBindings = nil
 			bind(v)
 			return false
 		}
@@ -703,6 +708,16 @@ func (x *Exec) applyContract(st *State, fr *Frame, at ssa.Instruction, name stri
 	sc.world = 0
 	if fn != nil {
 		sc.pkg = fn.Pkg
+		// a closure's contract speaks about its captured variables by name: they are read from their
+		// cells (the pre-state heap inside old(...))
+		for i, fv := range fn.FreeVars {
+			if i < len(x.siteBindings) {
+				if sc.freeCells == nil {
+					sc.freeCells = map[string]Val{}
+				}
+				sc.freeCells[fv.Name()] = x.siteBindings[i]
+			}
+		}
 	}
 	for _, a := range args {
 		if a.World > 0 {
